@@ -29,7 +29,7 @@ const commonRule = " The code under test is the CURRENT /repo file, rewritten at
 func (world) Rule(p string) string {
 	switch p {
 	case "C34":
-		return "transaction.PriorityQueue: operations Push (4 extrinsics as keys, 3 priorities, every pushed *ValidTransaction distinct), Pop, Peek, RemoveExtrinsic, Exists, Pending, Len. Model: highest priority first, earliest accepted push among equals, a push of an extrinsic that is in the queue is refused with an error, every accepted push is yielded by Pop / removed at most once, Peek does not remove, Exists/Len/Pending (as a set) reflect the content." + commonRule
+		return "transaction.PriorityQueue: operations Push (4 extrinsics as keys, 3 priorities, every pushed *ValidTransaction distinct), Pop, Peek, RemoveExtrinsic, Exists, Pending, Len. Model: highest priority first, earliest accepted push among equals, a push of an extrinsic that is in the queue is refused with an error, every accepted push is yielded by Pop / removed at most once, Peek does not remove, Exists/Len/Pending (as a set) reflect the content. One run in five is a sequential history on the node's transaction state instead (dot/state.TransactionState over the real lib/transaction queue and pool: Push, AddToPool, Pop, Peek, RemoveExtrinsic, RemoveExtrinsicFromPool, Exists, Pending, PendingInPool; model: the queue model plus a map for the pool, membership = in the queue or in the pool)." + commonRule
 	case "C35":
 		return "lrucache.LRUCache[int,int]: operations Get and Put (the only methods), capacity 1..8. Model: map bounded by capacity; Get of a present key returns the last value put and makes the key most recently used, Get of an absent key returns the zero value; Put of a present key replaces the value and makes it most recently used; Put of an absent key into a full cache evicts exactly the least recently used key." + commonRule
 	}
@@ -43,7 +43,7 @@ func (world) Components(p string) ([]string, []string) {
 	switch p {
 	case "C34":
 		return []string{"lib/transaction/priority_queue.go (PriorityQueue Push/Pop/Peek/RemoveExtrinsic/Exists/Pending/Len and the heap below it; instrumented at check time from the working tree; PopWithTimer copied but NOT exercised)",
-			"lib/transaction/types.go (copied)", "container/heap", "dot/types.Extrinsic.Hash"}, stub
+			"lib/transaction/types.go (copied)", "container/heap", "dot/types.Extrinsic.Hash", "dot/state/transaction.go TransactionState + lib/transaction/pool.go (real packages, sequential histories only)"}, stub
 	case "C35":
 		return []string{"lib/utils/lru-cache/lru_cache.go (LRUCache Get/Put/NewLRUCache; instrumented at check time from the working tree)", "container/list"}, stub
 	}
